@@ -140,7 +140,7 @@ func (c14) Gen(r *simrt.Rand, idx int, tier string) *Case {
 		if c.Cmd == "format" {
 			c.Cmd = "print"
 		}
-		c.Note = []string{"accrual-inverted", "accrual-oneday", "date-0001", "date-9999", "empty", "comments-only", "huge-number", "zero-price", "deep-account", "no-final-newline"}[r.Intn(10)]
+		c.Note = []string{"accrual-inverted", "accrual-oneday", "date-0001", "accrual-0001", "date-9999", "empty", "comments-only", "huge-number", "zero-price", "deep-account", "no-final-newline"}[r.Intn(11)]
 	case "infer-fault":
 		c.Cmd = "infer"
 	}
@@ -358,6 +358,9 @@ func (c14) Eval(c *Case) (*Violation, bool) {
 			{"balance", "--color=false", "-m", "1:-1,.", main},
 			{"balance", "--color=false", "-m", "-2:-3", main},
 			{"balance", "--color=false", "--digits", "40", main},
+			{"balance", "--color=false", "--digits", "2147483647", main},
+			{"portfolio", "weights", "-v", comOr(c.J, "CHF"), "--digits", "2147483647", main},
+			{"register", "--digits", "2147483647", main},
 			{"portfolio", "weights", "-v", comOr(c.J, "CHF"), "-m", "-1,.", main},
 			{"portfolio", "weights", "-v", comOr(c.J, "CHF"), "-m", "1:-1,.", main},
 			{"balance", "--color=false", "--digits", "-1", main},
@@ -429,6 +432,8 @@ func (c14) Eval(c *Case) (*Violation, bool) {
 			files[main] += "\n2020-01-01 open Assets:Acc\n2020-01-01 open Expenses:Edge\n\n@accrue monthly 2020-12-01 2020-01-01 Assets:Acc\n2020-03-01 \"inverted\"\nAssets:Acc Expenses:Edge 1200 CHF\n\n"
 		case "accrual-oneday":
 			files[main] += "\n2020-01-01 open Assets:Acc\n2020-01-01 open Expenses:Edge\n\n@accrue daily 2020-03-01 2020-03-01 Assets:Acc\n2020-03-01 \"one day\"\nAssets:Acc Expenses:Edge 1200 CHF\n\n"
+		case "accrual-0001":
+			files[main] += "\n2020-01-01 open Assets:Acc\n2020-01-01 open Expenses:Edge\n\n@accrue monthly 0001-01-01 0001-12-31 Assets:Acc\n2020-03-01 \"ancient accrual\"\nAssets:Acc Expenses:Edge 1200 CHF\n\n"
 		case "date-0001":
 			files[main] += "\n0001-01-01 open Assets:Old\n0001-01-01 open Expenses:Old\n\n0001-01-01 \"ancient\"\nAssets:Old Expenses:Old 1 CHF\n\n"
 		case "date-9999":
